@@ -14,7 +14,8 @@ ALL_KINDS = ["sphere", "ellipsoid", "capsule", "cylinder", "cone", "box", "disk"
 PRIMITIVE_KINDS = ("sphere", "capsule", "box", "ellipsoid", "cylinder")
 FNS_ALL = ["jolt_distance", "jolt_intersection", "original_distance", "libccd_intersection", "nesterov_distance",
            "nesterov_distance_acc", "nesterov_intersection", "mpr_intersection", "mpr_penetration", "epa"]
-FNS_PRIM = ["primitives_distance", "primitives_intersection"]
+FNS_PRIM = ["primitives_distance", "primitives_intersection", "primitives_distance_acc"]
+FNS_MORE = ["jolt_distance_noclip", "jolt_iterations", "original_iterations", "nesterov_iterations"]
 BOOL_FNS = ("jolt_intersection", "libccd_intersection", "nesterov_intersection", "primitives_intersection",
             "mpr_intersection")
 
@@ -305,7 +306,7 @@ def gen(rng, tier="quick", prop="C03"):
         "degenerate": prop == "C19" and rng.chance(0.6),
         "lattice": rng.chance(0.5),
         "prim": rng.chance(0.7),
-        "fns": sorted(rng.sample(FNS_ALL, rng.choice([1, 2, 4, len(FNS_ALL)]))),
+        "fns": sorted(rng.sample(FNS_ALL + FNS_MORE, rng.choice([1, 2, 4, len(FNS_ALL) + len(FNS_MORE)]))),
         "faults": sorted(f for f in ("cache-warm", "pose-delivery", "dup", "self-pair") if rng.chance(0.6)),
         "support_budget": 1000,
     }
@@ -560,7 +561,7 @@ def _cmp_narrow(fn, r, tw, L):
     """Live vs fresh twin for one narrow-phase result; returns a message or None."""
     if tw is None or "exc" in tw or "budget" in tw:
         return None  # the twin itself failed: nothing to compare with (C19's business)
-    tol = (1e-5 if fn in ("jolt_distance", "epa") else 1e-3) * L
+    tol = (1e-5 if fn in ("jolt_distance", "jolt_distance_noclip", "epa") else 1e-3) * L
     if "d" in r and "d" in tw:
         if r["d"] == MAX_FLOAT or tw["d"] == MAX_FLOAT:
             if r["d"] != tw["d"] and min(r["d"], tw["d"]) < 300.0:
